@@ -77,9 +77,48 @@ fn num(inp: &str, k: &str) -> u64 {
     inp.split(&format!("\"{}\":", k)).nth(1).unwrap().trim().split(|c: char| !c.is_ascii_digit()).next().unwrap().parse().unwrap()
 }
 
+fn rss_kb() -> u64 {
+    let s = std::fs::read_to_string("/proc/self/status").unwrap();
+    s.lines().find(|l| l.starts_with("VmRSS:")).unwrap().split_whitespace().nth(1).unwrap().parse().unwrap()
+}
+
+/// C17 / C04 "memory held by a receiver is bounded by its configuration rather than by traffic": ONE datagram of a new object (No-Code,
+/// in-band FTI announcing a source block of `b` one-byte symbols, transfer length 2^40) is pushed into a receiver configured with
+/// object_max_cache_size = `limit` bytes; the resident memory of the process must not grow by more than limit + `slack_kb`.
+fn check_alloc(b: u64, limit: u64) -> bool {
+    let mut o = oti::Oti::new_no_code(1, 1000);
+    o.maximum_source_block_length = b as u32;
+    let p = crate::common::pkt::Pkt { payload: vec![9u8; 1], transfer_length: 1u64 << 40, esi: 0, sbn: 0, toi: 5, fdt_id: None, cenc: lct::Cenc::Null,
+        inband_cenc: true, close_object: false, source_block_length: b as u32, sender_current_time: false };
+    let data = alc::new_alc_pkt(&o, &0u128, 1, &p, crate::common::Profile::RFC6726, SystemTime::now());
+    let output = Rc::new(ObjectWriterBufferBuilder::new(true));
+    let mut config = crate::receiver::Config::default();
+    config.object_max_cache_size = Some(limit as usize);
+    let mut r = MultiReceiver::new(output.clone(), Some(config), false);
+    let endpoint = UDPEndpoint::new(None, "224.0.0.1".to_owned(), 5000);
+    let before = rss_kb();
+    let _ = r.push(&endpoint, &data, SystemTime::now());
+    let after = rss_kb();
+    let grown_kb = after.saturating_sub(before);
+    let slack_kb = 65536; // allocator / thread noise, far below the effect looked for
+    if grown_kb > limit / 1024 + slack_kb {
+        report("push", format!("{{\"alloc\":1,\"b\":{},\"limit\":{},\"datagram_bytes\":{}}}", b, limit, data.len()),
+            format!("resident memory grew by {} kB after one datagram of {} bytes", grown_kb, data.len()),
+            "one datagram allocates within the configured per object limit plus a bounded overhead".to_string());
+        return true;
+    }
+    false
+}
+
 #[test]
 fn search() {
     if let Ok(inp) = std::env::var("VERIF_REPLAY_INPUT") {
+        if inp.contains("\"alloc\"") {
+            let bad = check_alloc(num(&inp, "b"), num(&inp, "limit"));
+            println!("WSTATS {{\"evaluations\":1,\"mode\":\"replay\"}}");
+            assert!(!bad, "replayed input still fails");
+            return;
+        }
         let bad = check_events(num(&inp, "n"), num(&inp, "ending") as u8, num(&inp, "timeout_ms"));
         println!("WSTATS {{\"evaluations\":1,\"mode\":\"replay\"}}");
         assert!(!bad, "replayed input still fails");
@@ -92,6 +131,10 @@ fn search() {
             evals += 1;
             if found < 3 && check_events(n, ending, 5) { found += 1; }
         }
+    }
+    for b in [1000u64, 20_000_000] {
+        evals += 1;
+        if check_alloc(b, 1000) { found += 1; }
     }
     println!("WSTATS {{\"evaluations\":{},\"mode\":\"search\"}}", evals);
     assert!(found == 0, "witness found");
